@@ -485,7 +485,10 @@ def evaluate(pid, tier, seed):
         pi, pm = project(pid, view), project(pid, r['model'])
         if pi != pm:
             oc.disagreements.append(dict(rec, what=f'projection of {pid}', impl=pi, model=pm))
-        ok = 'view' in view and r.get('holds', {}).get(pid, False)
+        # C15 is "every documented read accessor ... agrees with the document": script, body and the timing accessors are
+        # read accessors too, so C15 asks for all three specifications
+        hs = r.get('holds', {})
+        ok = 'view' in view and (hs.get(pid, False) if pid != 'C15' else all(hs.get(k_, False) for k_ in ('C15', 'C16', 'C17')))
         if not ok:
             oc.failing.append(dict(rec, spec=pid, impl=pi, model=pm, holds=r.get('holds')))
         n_st = len(view['view']['stories']) if 'view' in view else 0
@@ -511,7 +514,9 @@ def project(pid, v):
         return v
     w = v['view']
     if pid == 'C15':
-        return {'view': {'ro_slug': w['ro_slug'], 'completed': w['completed'],
+        return {'view': {'ro_slug': w['ro_slug'], 'completed': w['completed'], 'script': w['script'], 'body': w['body'],
+                         'story_scripts': [s['script'] for s in w['stories']], 'timing': [[s[k] for k in ('duration', 'offset', 'start', 'stop')] for s in w['stories']],
+                         'ro_timing': [w['start'], w['stop'], w['duration']],
                          'stories': [{'id': s['id'], 'slug': s['slug'], 'items': s['items'],
                                       'none': [k for k in ('duration', 'offset', 'start', 'stop') if s[k] is None]}
                                      for s in w['stories']],
@@ -611,7 +616,8 @@ def replay(pid, fl):
     import json
     print(json.dumps({'impl': project(pid, view), 'model': project(pid, r['model']), 'dom': r['dom'], 'holds': r.get('holds')},
                      indent=1, ensure_ascii=False)[:4000])
-    bad = r['dom']['WfAcc'] and (('view' not in view) or not r.get('holds', {}).get(pid, False)
+    hs = r.get('holds', {})
+    bad = r['dom']['WfAcc'] and (('view' not in view) or not (hs.get(pid, False) if pid != 'C15' else all(hs.get(k_, False) for k_ in ('C15', 'C16', 'C17')))
                                  or project(pid, view) != project(pid, r['model']))
     if bad:
         print(f'VIOLATION property={pid} replay=(this file): still fails on the current tree')
